@@ -155,6 +155,10 @@ func keyOf(d *hx.Disagreement) string {
 
 // genCase builds one pool + derivations + full Is matrix.
 func genCase(rng *rand.Rand, id int, domain bool, small bool) hx.Case {
+	// a third of the gating cases also create foreign errors that WRAP a gerror value half-way
+	// (fmt.Errorf("%w", derived)) and may Convert them later: Convert must treat such a wrapper as
+	// a foreign error (wrap it under the receiving factory), not return the buried gerror error
+	wrapMid := domain && rng.Intn(3) == 0
 	lines := []string{fmt.Sprintf("case gei %d", id)}
 	sh := &shadow{}
 	add := func(l string) {
@@ -214,6 +218,10 @@ func genCase(rng *rand.Rand, id int, domain bool, small bool) hx.Case {
 	}
 	longChain, convForeign, convValue, reconv := false, false, false, false
 	for budget > 0 {
+		if wrapMid && len(sh.vkind) > np && rng.Intn(4) == 0 {
+			add(fmt.Sprintf("gei foreign wrapv %d", rng.Intn(len(sh.vkind))))
+			tags["foreign-wrapping-gerror-midway"] = true
+		}
 		cur := rng.Intn(np)
 		L := rng.Intn(7)
 		if L > budget {
@@ -261,7 +269,7 @@ func genCase(rng *rand.Rand, id int, domain bool, small bool) hx.Case {
 	for k := range sh.fkind {
 		add(fmt.Sprintf("gei isfrow %d", k))
 	}
-	if domain {
+	if domain && !tags["foreign-wrapping-gerror-midway"] {
 		// the implementation against the SPECIFICATION (specIs / specIsForeign) directly
 		for i := range sh.vkind {
 			add(fmt.Sprintf("gei specrow %d", i))
